@@ -98,6 +98,31 @@ class Case:
         self.counts[k] = self.counts.get(k, 0) + n
 
 
+# ----------------------------------------------------------------------------- load containers
+INT_CONTAINERS = ("int-list", "np-int64", "np-int32")
+LIST_CONTAINERS = ("int-list", "mixed-list")  # Python lists: `q_dot * n_years` repeats them
+NP_CONTAINERS = ("np-int64", "np-int32", "np-float64")  # used with n_years = 1 only (see the assumptions)
+
+
+def to_container(vals, kind):
+    """The same numbers in another container / element type.  The property's formula is about the values."""
+    import numpy as np
+
+    if kind in (None, "float-list"):
+        return [float(v) for v in vals]
+    if kind == "int-list":
+        return [int(v) for v in vals]
+    if kind == "mixed-list":
+        return [int(v) if (i % 2 == 0 and float(v).is_integer()) else float(v) for i, v in enumerate(vals)]
+    if kind == "np-int64":
+        return np.array([int(v) for v in vals], dtype=np.int64)
+    if kind == "np-int32":
+        return np.array([int(v) for v in vals], dtype=np.int32)
+    if kind == "np-float64":
+        return np.array([float(v) for v in vals], dtype=np.float64)
+    raise ValueError(kind)
+
+
 # ----------------------------------------------------------------------------- building real objects
 def synth_lts(rng, lt, g0, n_bh, monotone=True):
     """A long-time-step table on the Eskilson log times starting at g0."""
@@ -266,6 +291,11 @@ def run_det(cfg):
         q = [rng.choice([0.0, 0.0, rng.uniform(-mag, mag)]) for _ in range(n)]
     else:
         q = [rng.uniform(-mag, mag) for _ in range(n)]
+    qdtype = cfg.get("qdtype", "float64")
+    if qdtype != "float64":  # whole watts in an integer array: +-3 W (less than one watt per borehole) or kW scale
+        lim = 3 if cfg.get("small") else 50000
+        q = [float(rng.randint(0, lim) if style == "pos" else -rng.randint(0, lim) if style == "neg" else 0 if style == "zero"
+                   else rng.randint(-lim, lim)) for _ in range(n)]
     tlen = n + cfg["textra"]
     t, acc = [], 0.0
     for _ in range(max(tlen, 0)):
@@ -287,12 +317,22 @@ def run_det(cfg):
     try:
         with warnings.catch_warnings():
             warnings.simplefilter("ignore")
-            eft, dtb = ghe._simulate_detailed(np.array(q, dtype=float), np.array(t, dtype=float), gstub)
+            eft, dtb = ghe._simulate_detailed(np.array(q, dtype=getattr(np, qdtype)), np.array(t, dtype=float), gstub)
         c.impl = ("ok", n, [float(v) for v in eft], [float(v) for v in dtb], None, None)
     except IndexError:
         c.impl = ("raise", "IndexError")
+    c.count(f"det:dtype:{qdtype}" + (":small" if cfg.get("small") and qdtype != "float64" else ""))
+    if qdtype != "float64" and c.impl[0] == "ok":  # the same numbers as floats must give identical temperatures
+        calls["i"] = 0
+        with warnings.catch_warnings():
+            warnings.simplefilter("ignore")
+            e2, d2 = ghe._simulate_detailed(np.array(q, dtype=float), np.array(t, dtype=float), gstub)
+        if [float(v) for v in e2] != c.impl[2] or [float(v) for v in d2] != c.impl[3]:
+            j = next((j for j in range(n) if float(e2[j]) != c.impl[2][j] or float(d2[j]) != c.impl[3][j]), 0)
+            c.fail.append(("container-equivalence", f"_simulate_detailed with the loads as {qdtype} array and the same numbers as float64 differ at step {j+1}: "
+                           f"{c.impl[2][j]!r} vs {float(e2[j])!r} (N={cfg['N']}, q={q[:4]}...)", {"q": q, "t": t, "qdtype": qdtype, "truth": truth}))
     c.steps = list(range(1, n + 1))
-    c.sig = ("det", cfg["pipe"], cfg["N"], n, style, cfg["textra"], cfg["seed"])
+    c.sig = ("det", cfg["pipe"], cfg["N"], n, style, cfg["textra"], cfg["seed"], qdtype)
     c.count(f"det:{style}")
     c.count("det:time-axis-" + ("short" if cfg["textra"] < 0 else "exact" if cfg["textra"] == 0 else "long"))
     if calls["bad"]:
@@ -514,9 +554,17 @@ def run_hr(cfg):
         c.skip = f"construct:{type(e).__name__}"
         return c
     rng = random.Random(cfg["seed"] + 13)
+    cont = cfg.get("container")
+    if cont:  # the same values in the container under test (whole watts for the integer ones)
+        base_vals = [float(v) for v in ghe.hourly_extraction_ground_loads]
+        if cont in INT_CONTAINERS or cfg.get("round_loads"):
+            base_vals = [float(round(v)) for v in base_vals]
+        ghe.hourly_extraction_ground_loads = to_container(base_vals, cont)
+        c.count(f"hr:container:{cont}")
+    mk = (lambda vals: to_container(vals, cont)) if cont else (lambda vals: list(vals))
     loads = [float(v) for v in ghe.hourly_extraction_ground_loads]
     c.count(f"hr:kind:{cfg['hkind']}")
-    c.sig = ("hr", cfg["hkind"], cfg["pipe"], cfg["N"], cfg["m0"], cfg["m1"], len(loads), bool(cfg.get("after_hybrid")), cfg["seed"])
+    c.sig = ("hr", cfg["hkind"], cfg["pipe"], cfg["N"], cfg["m0"], cfg["m1"], len(loads), bool(cfg.get("after_hybrid")), cfg["seed"], cont)
     if cfg.get("after_hybrid"):  # call history: the hourly result must not depend on an earlier hybrid run (F7, fixed)
         c.count("hr:after-hybrid-run")
         with ghelib.quiet(), warnings.catch_warnings():
@@ -573,22 +621,31 @@ def run_hr(cfg):
             c.fail.append(("hr-maxmin", "simulate() did not return (max, min) of hp_eft", replay))
         if [float(v) for v in ghe.loading[:n]] != q:
             c.fail.append(("hr-bookkeeping", "GHE.loading is not the simulated rejection load", replay))
+        if cont:  # the same numbers as a list of floats must give identical temperatures
+            ghe.hourly_extraction_ground_loads = [float(v) for v in loads]
+            _, ef, df = sim()
+            if ef != eft or df != dtb:
+                j = next((j for j in range(min(len(ef), n)) if ef[j] != eft[j] or df[j] != dtb[j]), 0) if len(ef) == n else 0
+                c.fail.append(("container-equivalence", f"hourly loads as {cont} and the same numbers as a list of floats give different results "
+                               f"({n} vs {len(ef)} steps; step {j+1}: {eft[j]!r} vs {ef[j]!r}; N={cfg['N']}, loads={loads[:4]}...)",
+                               dict(replay, container=cont, loads=loads[:50])))
+            ghe.hourly_extraction_ground_loads = mk(loads)
         # consequences on the real object (only when cheap enough)
         if cfg.get("variants", True):
             tg = truth["Tg"]
             dep = [v - tg for v in eft]
             scale = max(1.0, max(abs(v) for v in dep))
-            ghe.hourly_extraction_ground_loads = [0.0] * len(loads)
+            ghe.hourly_extraction_ground_loads = mk([0.0] * len(loads))
             _, z, _ = sim()
             if any(v != tg for v in z):
                 c.fail.append(("zero-load", f"hourly: zero load gives {z[:3]} instead of exactly T_g = {tg}", replay))
-            a = cfg["a"]
-            ghe.hourly_extraction_ground_loads = [a * v for v in loads]
+            a = cfg.get("a_int", 2) if cont in INT_CONTAINERS else cfg["a"]  # integer containers are scaled by a whole factor
+            ghe.hourly_extraction_ground_loads = mk([a * v for v in loads])
             _, s, _ = sim()
             bad = [i for i in range(n) if abs((s[i] - tg) - a * dep[i]) > REL * max(1.0, abs(a)) * scale]
             if bad:
                 c.fail.append(("linear", f"hourly loads x {a}: departure {s[bad[0]]-tg!r} at step {bad[0]+1}, expected {a*dep[bad[0]]!r}", dict(replay, a=a)))
-            ghe.hourly_extraction_ground_loads = loads
+            ghe.hourly_extraction_ground_loads = mk(loads)
             d = cfg["d"]
             ghe.bhe.soil.ugt = tg + d
             _, sh, _ = sim()
@@ -678,6 +735,9 @@ def gen_cases(rng, tier):
         cfg["n"] = rng.choice([1, 2, 3, 5, 8, 13, 21, 34]) if i % 4 else rng.randint(1, 60)
         cfg["style"] = rng.choice(["pos", "neg", "mixed", "mixed", "sparse", "zero"])
         cfg["textra"] = rng.choice([0, 0, 0, 1, 5, -1, -cfg["n"]])
+        if i % 8 == 5:  # whole watts in an integer array, on a field where they do not divide evenly
+            cfg.update(qdtype=rng.choice(["int64", "int32"]), small=rng.random() < 0.4, N=rng.choice([4, 4, 7, 13, 48, 300]),
+                       style=rng.choice(["pos", "neg", "mixed", "mixed"]), textra=rng.choice([0, 0, 2]))
         cases.append(cfg)
     # --- hyb
     months = [1, 2, 3, 6, 11, 12, 13, 18, 24, 25, 36]
@@ -696,6 +756,24 @@ def gen_cases(rng, tier):
         cfg = base_cfg(rng, "hr")
         cfg.update(hkind="full", profile=PROFILES[(i * 3) % len(PROFILES)], scale=10 ** rng.uniform(-1, 0.5) * max(1.0, cfg["N"] / 20.0),
                    m1=12 if (quick or i % 4) else 24, ksteps=40 if quick else 60, variants=True)
+        if i % 2 == 1:  # a year of whole watts as Python ints (a JSON array written without decimal points)
+            cfg.update(container="int-list", a_int=rng.choice([2, -3]), N=rng.choice([4, 7, 13, 48]))
+        cases.append(cfg)
+    # the same numbers in other containers: Python ints, numpy integer arrays, ints and floats mixed
+    for i in range(16 if quick else 150):
+        cfg = base_cfg(rng, "hr")
+        cont = ["int-list", "np-int64", "int-list", "np-int32", "mixed-list", "int-list", "np-int64", "np-float64"][i % 8]
+        ln = rng.choice([24, 100, 333])
+        small = i % 3 == 0
+        lim = 3 if small else 50000
+        vals = [float(rng.randint(-lim, lim)) for _ in range(ln)]
+        if cont in ("mixed-list", "np-float64"):
+            vals = [v if k % 2 == 0 else v + rng.uniform(-0.5, 0.5) for k, v in enumerate(vals)]
+        if i % 5 == 4:
+            vals = [abs(v) for v in vals]
+        cfg.update(hkind="container", container=cont, loads=vals, N=4 if small else rng.choice([4, 7, 13, 48, 300]),
+                   m1=rng.choice([12, 12, 13, 24]) if cont in LIST_CONTAINERS else rng.choice([1, 6, 12]),
+                   ksteps=60, variants=True, a_int=1000 if small else rng.choice([2, -7, 10]))
         cases.append(cfg)
     for i in range(24 if quick else 200):
         cfg = base_cfg(rng, "hr")
@@ -872,7 +950,9 @@ def run(ctx: core.Ctx):
         "numpy float rounding within 1e-9 relative (+1e-13 x sum of |terms|) of the exact rational value",
     ]
     ctx.assumptions += [
-        "hourly_extraction_ground_loads is a Python list (list repetition `q_dot * n_years`), as everywhere in the package",
+        "hourly_extraction_ground_loads is a Python list whenever it has to be repeated (`q_dot * n_years` is list repetition; a numpy array would be "
+        "multiplied element-wise instead — candidate finding reported to the coordinator); numpy arrays are fed only with n_years = 1",
+        "float32 load arrays are not fed: the unchanged code divides them by the borehole count in float32 (4e-8 relative, beyond the 1e-9 tolerance)",
         "parameters with a zero divisor (H, k, nbh, m_dot*cp) give inf/nan in numpy without raising; the model answers `nonfinite`; real objects never have them",
         "int(n_months/12.0*8760.0) = 730*n_months in float arithmetic (checked for n_months = 1..4800 on every run)",
         "the hourly time axis is rebuilt on every call (F7 fixed in /repo); a source that reuses self.times again stops the translator",
